@@ -120,7 +120,9 @@ class Session:
 
 def run_random_session(cfg: Config, monitors: list[Monitor], seed: int, nsteps: int,
                        weights=None, refusal_rate=1.0, stop_on_violation=True,
-                       opgen=None) -> Session:
+                       opgen=None, tail=None) -> Session:
+    """tail: optional callable (gen, tracks) -> list of ops executed after the random part
+    (for steps after which the older history is not meant to be walked any more)."""
     rng = random.Random(seed)
     sess = Session(cfg, monitors)
     gen = (opgen or OpGen)(cfg, rng, weights=weights, refusal_rate=refusal_rate)
@@ -131,6 +133,15 @@ def run_random_session(cfg: Config, monitors: list[Monitor], seed: int, nsteps: 
         sess.step(op)
         if sess.hang or (sess.violations and stop_on_violation):
             return sess
+    if tail is not None:
+        for mk in tail:
+            op = mk(gen, sess.tracks)
+            if op is None:
+                continue
+            sess.step(op)
+            if sess.hang or (sess.violations and stop_on_violation):
+                return sess
+        sess.tail_done = True
     sess.finish()
     return sess
 
